@@ -21,7 +21,8 @@ class Clock(object):
 def run_scenario(job):
     """job = (scenario record from TLC, limit, variant) -> trace line
     variant: 0 plain files; 1 older files gzip'ed; 2 bz2; 3 plain + gz duplicate of every rotated file; 4 comment and
-    corrupt record inserted after the first record of every file; 5 a comment line before the first and after the last record"""
+    corrupt record inserted after the first record of every file; 5 a comment line before the first and after the last record; 6 entries that match the history's name but cannot be opened
+    (a directory, a dangling symbolic link) lie beside the files"""
     warnings.filterwarnings("ignore")
     import cpppo.history.files as hf
     import cpppo.history.times as ht
@@ -58,6 +59,9 @@ def run_scenario(job):
                     shutil.copyfileobj(src, dst)
                 if variant != 3:
                     os.unlink(name)
+        if variant == 6:
+            os.mkdir(path + ".0.d")
+            os.symlink(path + ".gone", path + ".99")
         last = max(r["ts"] for f in sc["files"] for r in f)
         ld = hf.loader(path, historical=BASE + sc["start"], basis=BASE, factor=float(sc["factor"]),
                        lookahead=float(sc["lookahead"]) if sc["lookahead"] else None)
